@@ -6,8 +6,11 @@ from gen import extract_facts
 generate_facts = extract_facts.generate
 
 ID = "C04"
-LEAN_MODULES = ["Econf.Props.C04", "Econf.Props.Tie"]
-THEOREMS = ["Econf.C04_read_total", "Econf.C04_line_total", "Econf.C04_split_lossless", "Econf.parseLine_err", "Econf.Struct.tie_parser_codes"]
+LEAN_MODULES = ["Econf.Props.C04", "Econf.Props.Tie", "Econf.Props.Leaf"]
+THEOREMS = ["Econf.C04_read_total", "Econf.C04_line_total", "Econf.C04_split_lossless", "Econf.parseLine_err", "Econf.Struct.tie_parser_codes",
+            "Leaf.ltrim_exec", "Leaf.rtrim_exec", "Leaf.trim_exec", "Leaf.toLowerCase_exec"]
+# the string helpers whose C source is translated to MiniC on every run (memory safety for every input is a theorem about the translation)
+LEAF_FNS = ["stripbrackets", "addbrackets", "toLowerCase", "hashstring", "ltrim", "rtrim", "trim", "check_delim", "replace_str"]
 SHRINK = False
 RULE = ("three input streams under ASan+UBSan with a per-scenario timeout: (1) all byte strings up to the tier's length over "
         "{a = space # [ ] \" newline} and random strings over a wider alphabet incl. NUL, tab, 0x80, ';'; (2) conventional documents "
